@@ -6,8 +6,14 @@
 //	fn 2  NewDecimalString:  (p s text)     -> (2) | (0 i text-of-result)
 //	fn 3  NewDecimal:        (p s)          -> (0) | (2)
 //	fn 4  SetString on i0:   (p s i0 text)  -> (2) | (e i')
+//	fn 5  history on ONE decimal: (kind p s (op ...)) -> (2) | (0 (record ...))
+//	      kind 0 = NewDecimal(p, s), 1 = &Decimal{Precision: p, Scale: s} (no integer yet)
+//	      op: (0) String  (1 text) SetString  (2 n) SetInt64  (3 bytes) SetBytes  (4) Negate
+//	          (5 p) Precision = p  (6 s) Scale = s  (7 p s) both  (8) read accessors
+//	      record: (answer Precision Scale integer|() text rt) taken after EVERY operation; text is printed by a
+//	      copy of the struct, so that looking does not count as a String call on the object itself
 //
-// A panic is recorded as (-1).
+// A panic is recorded as (-1) (fn 1-4) resp. -1 (an answer or text in fn 5).
 package main
 
 import (
@@ -112,6 +118,326 @@ func runFn4(p, s int, v0 *big.Int, text, tag string) {
 		}
 		return sx.L{sx.I(0), bigT(d.Int())}
 	})
+}
+
+// ---------------------------------------------------------------- histories (fn 5)
+
+type hop struct {
+	code int
+	text string
+	n    int64
+	b    []byte
+	p, s int
+}
+
+func (o hop) tree() sx.T {
+	c := sx.I(int64(o.code))
+	switch o.code {
+	case 1:
+		return sx.L{c, sx.Text(o.text)}
+	case 2:
+		return sx.L{c, sx.I(o.n)}
+	case 3:
+		return sx.L{c, sx.B(o.b)}
+	case 5:
+		return sx.L{c, sx.I(int64(o.p))}
+	case 6:
+		return sx.L{c, sx.I(int64(o.s))}
+	case 7:
+		return sx.L{c, sx.I(int64(o.p)), sx.I(int64(o.s))}
+	}
+	return sx.L{c}
+}
+
+func (o hop) name() string {
+	return [...]string{"String", "SetString", "SetInt64", "SetBytes", "Negate", "Precision", "Scale", "PrecScale", "Read"}[o.code]
+}
+
+// safe runs f; a panic is the observable -1
+func safe(f func() sx.T) (res sx.T) {
+	defer func() {
+		if r := recover(); r != nil {
+			res = sx.I(-1)
+		}
+	}()
+	return f()
+}
+
+// fresh builds, through the public API, another decimal in the state (p, s, v) -- also for (p, s) that
+// NewDecimal would refuse, which the object under test can reach through assignments
+func fresh(p, s int, v *big.Int) *asetypes.Decimal {
+	f, _ := asetypes.NewDecimal(0, 0)
+	f.Precision, f.Scale = p, s
+	f.SetBytes(new(big.Int).Abs(v).Bytes())
+	if v.Sign() < 0 {
+		f.Negate()
+	}
+	return f
+}
+
+func applyOp(d *asetypes.Decimal, o hop) sx.T {
+	return safe(func() sx.T {
+		switch o.code {
+		case 0:
+			return sx.Text(d.String())
+		case 1:
+			if err := d.SetString(o.text); err != nil {
+				return sx.I(2)
+			}
+		case 2:
+			d.SetInt64(o.n)
+		case 3:
+			d.SetBytes(o.b)
+		case 4:
+			d.Negate()
+		case 5:
+			d.Precision = o.p
+		case 6:
+			d.Scale = o.s
+		case 7:
+			d.Precision, d.Scale = o.p, o.s
+		case 8:
+			neg := d.IsNegative()
+			iv := d.Int()
+			ab := new(big.Int).SetBytes(d.Bytes())
+			bs := d.ByteSize()
+			f := fresh(d.Precision, d.Scale, iv)
+			return sx.L{sx.Bool(neg), bigT(iv), bigT(ab), sx.I(int64(bs)), sx.Bool(d.Cmp(*f) && f.Cmp(*d))}
+		}
+		return sx.I(0)
+	})
+}
+
+// snapshot: the fields, the integer, the text a copy prints, and whether that text parses back to an equal decimal
+func snapshot(d *asetypes.Decimal, answer sx.T) sx.T {
+	p, s := d.Precision, d.Scale
+	var vi sx.T = sx.L{}
+	func() {
+		defer func() { recover() }()
+		vi = bigT(d.Int())
+	}()
+	var text string
+	isText := false
+	tt := safe(func() sx.T {
+		c := *d
+		text = c.String()
+		isText = true
+		return sx.Text(text)
+	})
+	rt := false
+	if isText {
+		func() {
+			defer func() { recover() }()
+			if d2, err := asetypes.NewDecimalString(p, s, text); err == nil {
+				rt = d2.Cmp(*d) && d.Cmp(*d2)
+			}
+		}()
+	}
+	return sx.L{answer, sx.I(int64(p)), sx.I(int64(s)), vi, tt, sx.Bool(rt)}
+}
+
+// runHist creates one decimal and applies n operations to it; next chooses the k-th operation looking at the object
+func runHist(kind, p0, s0, n int, next func(k int, d *asetypes.Decimal) hop, tag string) {
+	var d *asetypes.Decimal
+	if kind == 0 {
+		var err error
+		if d, err = asetypes.NewDecimal(p0, s0); err != nil {
+			d = nil
+		}
+	} else {
+		d = &asetypes.Decimal{Precision: p0, Scale: s0}
+	}
+	ops := sx.L{}
+	recs := sx.L{}
+	names := ""
+	for k := 0; k < n; k++ {
+		o := next(k, d)
+		ops = append(ops, o.tree())
+		if k > 0 {
+			names += ","
+		}
+		names += o.name()
+		if d != nil {
+			recs = append(recs, snapshot(d, applyOp(d, o)))
+		}
+	}
+	in := sx.L{sx.I(int64(kind)), sx.I(int64(p0)), sx.I(int64(s0)), ops}
+	var res sx.T = sx.L{sx.I(2)}
+	if d != nil {
+		res = sx.L{sx.I(0), recs}
+	}
+	out.Case(5, in, res, fmt.Sprintf("%s;len=%d;%s", tag, n, names))
+}
+
+func fixedHist(kind, p0, s0 int, ops []hop, tag string) {
+	runHist(kind, p0, s0, len(ops), func(k int, _ *asetypes.Decimal) hop { return ops[k] }, tag)
+}
+
+// all words of length n over the alphabet
+func words(alpha []hop, n int, f func([]hop)) {
+	w := make([]hop, n)
+	var rec func(k int)
+	rec = func(k int) {
+		if k == n {
+			f(w)
+			return
+		}
+		for _, a := range alpha {
+			w[k] = a
+			rec(k + 1)
+		}
+	}
+	rec(0)
+}
+
+// a random operation for the object as it is now: values and texts mostly fit the CURRENT precision and scale
+func randOp(d *asetypes.Decimal) hop {
+	p, s := d.Precision, d.Scale
+	okps := 0 <= s && s <= p && p <= 38
+	switch rng.Intn(16) {
+	case 0, 1, 2:
+		return hop{code: 0}
+	case 3, 4:
+		if okps {
+			t, _ := genText(p, s)
+			if rng.Bool() { // a text that is accepted most of the time
+				li := 1
+				if p-s > 0 {
+					li = rng.Range(1, p-s)
+				}
+				t = signStr() + numeral(li, rng.Range(0, s), rng.Bool())
+				if p-s == 0 {
+					t = "0" + t[1:]
+				}
+			}
+			return hop{code: 1, text: t}
+		}
+		return hop{code: 1, text: pick([]string{"0", "1", "-1.5", "12.25", "x", ""})}
+	case 5, 6:
+		n := 18
+		if p < n && rng.Intn(8) > 0 {
+			n = p
+		}
+		if n < 1 {
+			return hop{code: 2, n: int64(rng.Intn(2))}
+		}
+		v := randInt(rng.Range(1, n)).Int64()
+		switch rng.Intn(12) {
+		case 0:
+			v = 0
+		case 1:
+			v = -1 << 63
+		case 2:
+			v = 1<<63 - 1
+		}
+		return hop{code: 2, n: v}
+	case 7, 8:
+		n := p
+		if rng.Intn(8) == 0 {
+			n = p + rng.Range(1, 3)
+		}
+		if n < 1 || rng.Intn(12) == 0 {
+			return hop{code: 3, b: pick2([][]byte{{}, {0}, {0, 0, 1}, {255}})}
+		}
+		b := new(big.Int).Abs(randInt(rng.Range(1, n))).Bytes()
+		if rng.Intn(6) == 0 {
+			b = append([]byte{0}, b...)
+		}
+		return hop{code: 3, b: b}
+	case 9:
+		return hop{code: 4}
+	case 10:
+		return hop{code: 8}
+	case 11: // precision, mostly still valid
+		if rng.Intn(6) == 0 {
+			return hop{code: 5, p: rng.Range(0, 41)}
+		}
+		lo := s
+		if lo < 0 {
+			lo = 0
+		}
+		if lo > 38 {
+			lo = 38
+		}
+		return hop{code: 5, p: rng.Range(lo, 38)}
+	case 12, 13: // scale, mostly still valid
+		if rng.Intn(6) == 0 {
+			return hop{code: 6, s: rng.Range(-1, 40)}
+		}
+		hi := p
+		if hi > 38 {
+			hi = 38
+		}
+		return hop{code: 6, s: rng.Range(0, hi)}
+	}
+	np := rng.Range(0, 38)
+	if rng.Intn(8) == 0 {
+		return hop{code: 7, p: rng.Range(0, 41), s: rng.Range(-1, 40)}
+	}
+	return hop{code: 7, p: np, s: rng.Range(0, np)}
+}
+
+func pick2(l [][]byte) []byte { return l[rng.Intn(len(l))] }
+
+func histories(pairs [][2]int) {
+	// ---- exhaustive: every word of length 2, 3 (4 for the first start; 4 for all in the thorough tier) over an alphabet
+	// of nine operations, from several starting points.  Assigned precision/scale differ from the starting ones.
+	type start struct{ kind, p, s, p1, s1, p2, s2 int }
+	starts := []start{
+		{0, 18, 0, 10, 2, 7, 3},    // the default NUMN/DECN decimal of asetypes/goValue.go, then "User must set precision and scale"
+		{0, 5, 2, 9, 4, 6, 0},      //
+		{0, 38, 19, 37, 1, 38, 38}, //
+		{0, 0, 0, 5, 0, 5, 2},      // NewDecimal(0, 0) as in GoValue for DECN/NUMN of length 0
+		{1, 18, 0, 10, 2, 7, 3},    // a struct literal: no integer until SetString
+		{0, 6, 3, 6, 7, 2, 4},      // assignments that leave the valid range (scale > precision): String panics
+	}
+	for si, st := range starts {
+		alpha := []hop{
+			{code: 0}, {code: 1, text: "12.5"}, {code: 2, n: 12345}, {code: 3, b: []byte{0x01, 0xe2, 0x40}}, {code: 4},
+			{code: 5, p: st.p1}, {code: 6, s: st.s1}, {code: 7, p: st.p2, s: st.s2}, {code: 8},
+		}
+		maxn := 3
+		if si == 0 || thorough {
+			maxn = 4
+		}
+		for n := 2; n <= maxn; n++ {
+			words(alpha, n, func(w []hop) { fixedHist(st.kind, st.p, st.s, append([]hop(nil), w...), "hist-exhaustive") })
+		}
+	}
+	// ---- the call sites: format, then fix precision/scale (goValue.go "User must set precision and scale", tds/field.go)
+	for _, q := range pairs {
+		p, s := q[0], q[1]
+		if p == 0 {
+			continue
+		}
+		v := randInt(rng.Range(1, p))
+		setv := hop{code: 3, b: new(big.Int).Abs(v).Bytes()}
+		for _, k := range []int{0, 1} {
+			if k == 1 && !thorough && rng.Intn(4) > 0 {
+				continue
+			}
+			fixedHist(0, 18, 0, []hop{setv, {code: k * 8}, {code: 7, p: p, s: s}, {code: 0}}, "hist-callsite")
+			fixedHist(0, 38, 0, []hop{setv, {code: k * 8}, {code: 6, s: s}, {code: 5, p: p}, {code: 0}, {code: 4}}, "hist-callsite")
+		}
+	}
+	// ---- random histories of length 2..6 from every (precision, scale)
+	reps := 2
+	if thorough {
+		reps = 40
+	}
+	for _, q := range pairs {
+		for r := 0; r < reps; r++ {
+			kind := 0
+			if rng.Intn(10) == 0 {
+				kind = 1
+			}
+			runHist(kind, q[0], q[1], rng.Range(2, 6), func(_ int, d *asetypes.Decimal) hop { return randOp(d) }, "hist-random")
+		}
+	}
+	// construction fails: no history
+	for _, q := range [][2]int{{-1, 0}, {39, 0}, {5, 6}, {5, -1}} {
+		fixedHist(0, q[0], q[1], []hop{{code: 0}, {code: 2, n: 1}}, "hist-invalid")
+	}
 }
 
 // ---------------------------------------------------------------- generators
@@ -434,6 +760,13 @@ func main() {
 			}
 		}
 	}
+
+	// ---- fn 5: histories on one object
+	var hp [][2]int
+	for _, q := range pairs {
+		hp = append(hp, [2]int{q.p, q.s})
+	}
+	histories(hp)
 
 	// ---- fn 3: every (p, s) in -2..40 squared, and a few far away
 	for p := -2; p <= 40; p++ {
